@@ -834,6 +834,8 @@ def getattr_(I, st, o, name, node):
             v, owner = cls.lookup(name)
             if isinstance(v, PropertyV):
                 return I.call(st, v.fget, CallArgs([o]), node)
+        if name == '__class__' and cls is not None:
+            return [(st, cls)]
         # 2. instance attributes
         attrs = getattr(obj, 'attrs', None)
         if attrs is not None and name in attrs:
